@@ -8,7 +8,7 @@ from vplib import Case, coq_list
 
 PROP = "C18"
 LEVEL = "proof"
-IMPORTS = ["Dag.Run"]
+IMPORTS = ["Dag.Run", "Dag.RunConvert"]
 CRATE = None  # merged into the main harness crate
 COMMAND = "dag"
 sys.setrecursionlimit(100000)
@@ -289,7 +289,476 @@ def case_from_line(cid, kind, line, cap=20000):
     if kind in ("prog", "progs"):
         return mk_prog_case(cid, parse_dag(t[1]), int(t[0]), None if t[2] == "-" else int(t[2]), cap,
                             shared_only=(kind == "progs"))
+    if kind == "conv":
+        tab = parse_ctab(t[1])
+        return mk_conv_case(cid, tab, int(t[0]), int(t[2]), parse_keys(t[3], len(tab)),
+                            [0] * len(tab) if t[4] == "-" else [int(ch) for ch in t[4]], int(t[5]), cap)
+    if kind == "convp":
+        return mk_convp_case(cid, parse_dag(t[1]), int(t[0]), cap)
+    if kind == "arc":
+        tab = parse_ctab(t[1])
+        return mk_arc_case(cid, tab, int(t[0]), int(t[2]), parse_keys(t[3], len(tab)),
+                           None if t[4] == "-" else int(t[4]), t[5], cap)
+    if kind == "proga":
+        return mk_proga_case(cid, parse_dag(t[1]), int(t[0]), None if t[2] == "-" else int(t[2]), cap)
     raise ValueError(kind)
+
+
+
+# ------------------------------------------------------------ Node::convert (kinds conv / convp)
+# A combinator table is a list of (k, a, b, pay): k = combinator 0..15 in the order of `Inner`
+# (iden unit injl injr take drop comp case assertl assertr pair disconnect witness fail jet word);
+# a, b child positions (disconnect: b = right + 1 | 0); pay = position whose CMR is the hidden CMR
+# of an assertion / fail entropy / jet number / word / witness value.
+K_NUL = (0, 1, 12, 13, 14, 15)
+K_UN = (2, 3, 4, 5, 8, 9)
+K_BIN = (6, 7, 10)
+
+
+def ctab_dag(tab):
+    """the DAG view of a combinator table (as_dag_node)"""
+    out = []
+    for (k, a, b, pay) in tab:
+        if k in K_NUL:
+            out.append(())
+        elif k in K_UN:
+            out.append((a,))
+        elif k in K_BIN:
+            out.append((a, b))
+        else:
+            out.append((a, b - 1) if b else (a,))
+    return out
+
+
+def cmr_classes(tab, only=None):
+    """per node the smallest position with the same CMR (CMR = hash of the committed structure:
+    an assertion hashes like the case it came from, disconnect commits to its left child only,
+    witness values are not committed)"""
+    ids = {}
+    cls = []
+    for pos, (k, a, b, pay) in enumerate(tab):
+        if k in (0, 1, 12):
+            sig = (k,)
+        elif k in (2, 3, 4, 5, 11):
+            sig = (k, cls[a])
+        elif k in (6, 10):
+            sig = (k, cls[a], cls[b])
+        elif k == 7:
+            sig = ("case", cls[a], cls[b])
+        elif k == 8:
+            sig = ("case", cls[a], cls[pay])
+        elif k == 9:
+            sig = ("case", cls[pay], cls[a])
+        else:
+            sig = (k, pay)
+        cls.append(ids.setdefault(sig, pos))
+    if only is not None:    # representatives among the given positions only
+        m = {}
+        for pos in sorted(only):
+            m.setdefault(cls[pos], pos)
+        cls = [m.get(x, x) for x in cls]
+    return cls
+
+
+def ctab_str(tab):
+    return ",".join("%d:%d:%d:%d" % e for e in tab)
+
+
+def parse_ctab(s):
+    return [tuple(int(x) for x in e.split(":")) for e in s.split(",")]
+
+
+def ref_convert(tab, root, keys, hides, failat, only=None):
+    """Specification of Node::convert with the harness's instrumented converter, written from
+    the documentation of the Converter trait on top of the recursive post-order reference:
+    returns the canonical result list."""
+    dag = ctab_dag(tab)
+    cls = cmr_classes(tab, only)
+    items, _ = ref_post(dag, root, keys)
+    log = []
+    rows = []
+    calls = 0
+
+    def enc(o):
+        return 0 if o is None else o + 1
+
+    def err(code):
+        out = [1, code, len(log)]
+        for e in log:
+            out.extend(e)
+        return out + [calls]
+
+    for (n, ix, li, ri) in items:
+        k, a, b, pay = tab[n]
+        base = [ix, n, enc(li), enc(ri)]
+        log.append([0] + base + [0, 0])
+        wd = xd = 0
+        if k == 12:
+            log.append([1] + base + [0, 0])
+            calls += 1
+            if calls == failat:
+                return err(1)
+            wd = pay + 7 + 1
+        if k == 11:
+            log.append([2] + base + [enc(ri), 0])
+            calls += 1
+            if calls == failat:
+                return err(2)
+            xd = enc(ri) + 1
+        kind, k1, k2, py = k, 0, 0, 0
+        if k in K_UN or k == 11:
+            k1 = li + 1
+        elif k in K_BIN:
+            k1, k2 = li + 1, ri + 1
+        if k in (8, 9):
+            py = cls[pay] + 1
+        elif k in (13, 14, 15):
+            py = pay + 1
+        if k == 7:
+            log.append([3] + base + [li + 1, ri + 1])
+            calls += 1
+            if calls == failat:
+                return err(3)
+            h = hides[n]
+            if h == 1:      # hide left: AssertR(cmr of the converted left child, right)
+                kind, k1, k2, py = 9, ri + 1, 0, rows[li][4] + 1
+            elif h == 2:    # hide right: AssertL(left, cmr of the converted right child)
+                kind, k1, k2, py = 8, li + 1, 0, rows[ri][4] + 1
+        log.append([4] + base + [k1, k2])
+        calls += 1
+        if calls == failat:
+            return err(4)
+        rows.append([kind, k1, k2, py, cls[n], xd, wd, ix])
+    out = [0, len(log)]
+    for e in log:
+        out.extend(e)
+    out.append(len(rows))
+    for r in rows:
+        out.extend(r)
+    return out + [calls]
+
+
+def split_conv(r, nsec):
+    """split harness output of conv/convp into sections and strip the pointer flags:
+    returns (flat list without flags, flags) or None"""
+    out, flags, pos = [], [], 0
+    try:
+        for _ in range(nsec):
+            st = r[pos]
+            if st == 9:
+                out.append(9)
+                pos += 1
+            elif st == 1:
+                ln = 3 + 7 * r[pos + 2] + 1
+                out.extend(r[pos:pos + ln])
+                pos += ln
+            elif st == 0:
+                nl = r[pos + 1]
+                nr = r[pos + 2 + 7 * nl]
+                ln = 2 + 7 * nl + 1 + 8 * nr + 1
+                out.extend(r[pos:pos + ln])
+                flags.append(r[pos + ln])
+                pos += ln + 1
+            else:
+                return None
+        if pos != len(r):
+            return None
+    except IndexError:
+        return None
+    return out, flags
+
+
+def conv_sections(r, nsec):
+    """parse a flag-free result into sections: ('ok', events, rows, calls) | ('err', code, events, calls) | ('panic',)"""
+    secs, pos = [], 0
+    try:
+        for _ in range(nsec):
+            st = r[pos]
+            if st == 9:
+                secs.append(("panic",))
+                pos += 1
+            elif st == 1:
+                nl = r[pos + 2]
+                ev = [tuple(r[pos + 3 + 7 * i: pos + 10 + 7 * i]) for i in range(nl)]
+                secs.append(("err", r[pos + 1], ev, r[pos + 3 + 7 * nl]))
+                pos += 4 + 7 * nl
+            elif st == 0:
+                nl = r[pos + 1]
+                ev = [tuple(r[pos + 2 + 7 * i: pos + 9 + 7 * i]) for i in range(nl)]
+                q = pos + 2 + 7 * nl
+                nr = r[q]
+                rows = [tuple(r[q + 1 + 8 * i: q + 9 + 8 * i]) for i in range(nr)]
+                secs.append(("ok", ev, rows, r[q + 1 + 8 * nr]))
+                pos = q + 2 + 8 * nr
+            else:
+                return None
+        if pos != len(r):
+            return None
+    except IndexError:
+        return None
+    return secs
+
+
+def check_convert(tab, root, keys, hides, failat, sec, flag, tag, only=None):
+    """The statement about Node::convert, on one result section of the implementation."""
+    dag = ctab_dag(tab)
+    if sec[0] == "panic":
+        return ("convert-panic", "%sconvert panicked" % tag)
+    if sec[0] == "ok":
+        _, ev, rows, calls = sec
+        if flag != 1:
+            return ("convert-shared", "%sArc::ptr_eq on the converted child pointers disagrees with the conversion "
+                    "index of the nodes (a shared child is not shared in the result, or the result is not the last "
+                    "converted node)" % tag)
+        visits = [e for e in ev if e[0] == 0]
+        # each yielded class is converted once: one row per visit, in order
+        if len(rows) != len(visits) or any(rw[7] != i for i, rw in enumerate(rows)):
+            return ("convert-once", "%s%d items visited, %d nodes converted (indices %s)"
+                    % (tag, len(visits), len(rows), [rw[7] for rw in rows]))
+        seen = {}
+        for e in visits:
+            kk = keys[e[2]]
+            if kk is not None:
+                if kk in seen:
+                    return ("convert-once", "%ssharing class %d converted twice (items %d and %d)" % (tag, kk, seen[kk], e[1]))
+                seen[kk] = e[1]
+        # children before parents; shared children shared: a child pointer is the converted node of the child's class
+        for i, rw in enumerate(rows):
+            n = visits[i][2]
+            for kid in (rw[1], rw[2]):
+                if kid and not (kid - 1 < i):
+                    return ("convert-children-first", "%sconverted node %d refers to converted node %d" % (tag, i, kid - 1))
+            k = tab[n][0]
+            src = list(dag[n])
+            if k == 11:
+                src = src[:1]
+            got = [x - 1 for x in (rw[1], rw[2]) if x]
+            if k == 7 and rw[0] == 9:
+                src = src[1:]
+            elif k == 7 and rw[0] == 8:
+                src = src[:1]
+            if len(got) != len(src):
+                return ("convert-child-class", "%sconverted node %d has %d child pointers, its source node %d has %d"
+                        % (tag, i, len(got), n, len(src)))
+            for c, j in zip(src, got):
+                tn = visits[j][2]
+                okc = (keys[tn] == keys[c]) if keys[c] is not None else (tn == c)
+                if not okc:
+                    return ("convert-child-class", "%sconverted node %d (source %d): child pointer %d was converted from "
+                            "node %d, which is not the class of child %d" % (tag, i, n, j, tn, c))
+        # hooks in post-order
+        idxs = [e[1] for e in ev]
+        if idxs != sorted(idxs) or sorted(set(idxs)) != list(range(len(visits))):
+            return ("convert-hook-order", "%shook calls are not grouped by item in iteration order: %s" % (tag, idxs))
+    want = ref_convert(tab, root, keys, hides, failat, only)
+    got = flatten_sec(sec)
+    if got != want:
+        j = next((i for i in range(min(len(got), len(want))) if got[i] != want[i]), min(len(got), len(want)))
+        return ("convert-spec", "%sconvert differs from its specification at output position %d: got %s.. expected %s.."
+                % (tag, j, got[j:j + 8], want[j:j + 8]))
+    return None
+
+
+def flatten_sec(sec):
+    if sec[0] == "panic":
+        return [9]
+    if sec[0] == "err":
+        out = [1, sec[1], len(sec[2])]
+        for e in sec[2]:
+            out.extend(e)
+        return out + [sec[3]]
+    out = [0, len(sec[1])]
+    for e in sec[1]:
+        out.extend(e)
+    out.append(len(sec[2]))
+    for rw in sec[2]:
+        out.extend(rw)
+    return out + [sec[3]]
+
+
+def conv_expr(tab, root, keys, hides, failat, fuel, only=None):
+    cls = cmr_classes(tab, only)
+    flat = []
+    for pos, (k, a, b, pay) in enumerate(tab):
+        flat.extend([k, a, b, cls[pay] if k in (8, 9) else pay, cls[pos]])
+    return "run_conv %s %d %s %s %d %d" % (coq_list(flat), root,
+                                          coq_list([0 if k is None else k + 1 for k in keys]),
+                                          coq_list(hides), failat, fuel)
+
+
+def mk_conv_case(cid, tab, root, mode, keys, hides, failat, cap, model=True):
+    n = len(tab)
+    dag = ctab_dag(tab)
+    ek = eff_keys(n, mode, keys)
+    try:
+        _, v = ref_post(dag, root, ek, cap)
+    except TooBig:
+        return None
+    fuel = 2 * v + 3
+    line = "%d %s %d %s %s %d" % (root, ctab_str(tab), mode, keys_str(keys) if mode == 2 else "-",
+                                  "".join(str(h) for h in hides), failat)
+    expr = conv_expr(tab, root, ek, hides, failat, fuel) if model and fuel <= 400 else None
+    return Case(cid, "conv", line, expr, {"dag": dag, "root": root, "mode": mode, "keys": ek, "md": None,
+                                          "tab": tab, "hides": hides, "failat": failat})
+
+
+def mk_convp_case(cid, dag, root, cap, model=True):
+    n = len(dag)
+    tab = [((1, 0, 0, 0) if len(ch) == 0 else (2, ch[0], 0, 0) if len(ch) == 1 else (10, ch[0], ch[1], 0)) for ch in dag]
+    ks = (structural_keys(dag), list(range(n)), [None] * n)
+    try:
+        fs = [2 * ref_post(dag, root, k, cap)[1] + 3 for k in ks]
+    except TooBig:
+        return None
+    expr = None
+    if model and max(fs) <= 400:
+        expr = " ++ ".join("(%s)" % conv_expr(tab, root, k, [0] * n, 0, f, reachable(dag, root)) for k, f in zip(ks, fs))
+    return Case(cid, "convp", "%d %s" % (root, dag_str(dag)), expr,
+                {"dag": dag, "root": root, "md": None, "tab": tab, "skeys": ks[0]})
+
+
+def adapt_marker(rng, tab, marker):
+    """disconnect data per marker: a = Arc<Node> (right child required), n / s = none, o = either"""
+    out = []
+    for pos, (k, a, b, pay) in enumerate(tab):
+        if k == 11:
+            if marker == "a" and b == 0:
+                b = rng.below(pos) + 1
+            elif marker in ("n", "s"):
+                b = 0
+        out.append((k, a, b, pay))
+    return out
+
+
+def mk_arc_case(cid, tab, root, mode, keys, md, marker, cap, model=True):
+    """the combinator table iterated by &Node and by Arc<Node> by value"""
+    n = len(tab)
+    dag = ctab_dag(tab)
+    ek = eff_keys(n, mode, keys)
+    try:
+        fuel = fuel_for(dag, root, ek, md, cap)
+    except TooBig:
+        return None
+    line = "%d %s %d %s %s %s" % (root, ctab_str(tab), mode, keys_str(keys) if mode == 2 else "-",
+                                  "-" if md is None else md, marker)
+    dig = 2 * fuel > DIGEST_FUEL
+    expr = None
+    if model:
+        cls = cmr_classes(tab)
+        flat = []
+        for pos, (k, a, b, pay) in enumerate(tab):
+            flat.extend([k, a, b, cls[pay] if k in (8, 9) else pay, cls[pos]])
+        # the model derives the DAG view from the combinator table itself (Convert.as_dag)
+        expr = "run_arc %s %d %s %d %d" % (coq_list(flat), root, coq_list([0 if k is None else k + 1 for k in ek]),
+                                          0 if md is None else md + 1, fuel)
+        if dig:
+            expr = "digest (%s)" % expr
+    return Case(cid, "arc", line, expr, {"dag": dag, "root": root, "mode": mode, "keys": ek, "md": md,
+                                         "tab": tab, "marker": marker, "digest": dig})
+
+
+def mk_proga_case(cid, dag, root, md, cap, model=True):
+    n = len(dag)
+    sk = structural_keys(dag)
+    ptr = list(range(n))
+    ks = (sk, ptr, [None] * n, ptr, ptr)
+    try:
+        fs = [fuel_for(dag, root, k, md, cap) for k in ks]
+    except TooBig:
+        return None
+    dig = sum(fs) > DIGEST_FUEL
+    expr = None
+    if model:
+        expr = " ++ ".join("(%s)" % run_expr(dag, root, k, md, f) for k, f in zip(ks, fs))
+        if dig:
+            expr = "digest (%s)" % expr
+    return Case(cid, "proga", "%d %s %s" % (root, dag_str(dag), "-" if md is None else md), expr,
+                {"dag": dag, "root": root, "md": md, "skeys": sk, "digest": dig})
+
+
+def random_ctab(rng, n, style):
+    dag = random_dag(rng, n, style)
+    tab = []
+    for pos, ch in enumerate(dag):
+        if len(ch) == 0:
+            k = rng.choice((0, 1, 1, 12, 12, 12, 13, 14, 15))
+            tab.append((k, 0, 0, rng.below(4) if k >= 12 else 0))
+        elif len(ch) == 1:
+            k = rng.choice((2, 3, 4, 5, 8, 9, 11, 11))
+            tab.append((k, ch[0], 0, rng.below(pos) if k in (8, 9) else 0))
+        else:
+            k = rng.choice((6, 7, 7, 7, 10, 11, 11))
+            tab.append((k, ch[0], ch[1] + 1 if k == 11 else ch[1], 0))
+    return tab
+
+
+def gen_conv_cases(rng, tier, cid, add, cap):
+    quick = tier == "quick"
+    # fixed shapes: diamond of a case, repeated child, child-and-grandchild, disconnect with shared right child
+    fixed = [
+        [(1, 0, 0, 0), (2, 0, 0, 0), (3, 0, 0, 0), (7, 1, 2, 0)],
+        [(12, 0, 0, 3), (7, 0, 0, 0)],
+        [(1, 0, 0, 0), (2, 0, 0, 0), (7, 1, 0, 0), (7, 2, 1, 0)],
+        [(1, 0, 0, 0), (12, 0, 0, 1), (11, 0, 2, 0), (11, 1, 0, 0), (6, 2, 3, 0), (10, 4, 1, 0)],
+        [(1, 0, 0, 0), (1, 0, 0, 0), (2, 0, 0, 0), (2, 1, 0, 0), (7, 2, 3, 0), (8, 4, 0, 2), (9, 5, 0, 3)],
+    ]
+    for tab in fixed:
+        n = len(tab)
+        dag = ctab_dag(tab)
+        for mode, keys in ((0, None), (1, None), (2, structural_keys(dag)), (2, cmr_classes(tab))):
+            for hv in (0, 1, 2):
+                add(mk_conv_case(cid(), tab, n - 1, mode, keys, [hv] * n, 0, cap))
+            for fa in range(1, 2 * n + 2):
+                add(mk_conv_case(cid(), tab, n - 1, mode, keys, [rng.below(3) for _ in range(n)], fa, cap))
+    nrand = 260 if quick else 4000
+    for i in range(nrand):
+        n = rng.range(1, 9) if i % 4 else rng.range(9, 22 if quick else 60)
+        tab = random_ctab(rng, n, rng.below(5))
+        dag = ctab_dag(tab)
+        root = n - 1 if rng.chance(5, 6) else rng.below(n)
+        hides = [rng.choice((0, 0, 1, 2)) for _ in range(n)]
+        for mode in (0, 1, 2, 2):
+            keys = None
+            if mode == 2:
+                keys = cmr_classes(tab) if rng.chance(1, 3) else random_keys(rng, dag, rng.below(5))
+            failat = 0 if rng.chance(2, 3) else rng.range(1, 2 * n + 1)
+            add(mk_conv_case(cid(), tab, root, mode, keys, hides, failat, cap, model=(not quick) or i % 3 == 0 or n <= 4))
+    for i in range(40 if quick else 400):
+        n = rng.range(2, 14)
+        dag = random_dag(rng, n, rng.below(5))
+        add(mk_convp_case(cid(), dag, n - 1 if rng.chance(5, 6) else rng.below(n), cap, model=(i % 2 == 0)))
+    # the iterators over `&Node` and over `Arc<Node>` by value (impl DagLike for Arc<Node>, disconnect_dag_arc /
+    # disconnect_dag_ref of every Disconnectable): every combinator, disconnect with and without right child
+    asym = [  # left and right subtrees of different shape under every binary combinator and under disconnect
+        [(1, 0, 0, 0), (2, 0, 0, 0), (3, 1, 0, 0), (k, 1, 2, 0)] for k in (6, 7, 10)
+    ] + [[(1, 0, 0, 0), (2, 0, 0, 0), (3, 1, 0, 0), (11, 1, 3, 0)],
+         [(1, 0, 0, 0), (12, 0, 0, 2), (11, 0, 2, 0), (11, 2, 1, 0), (10, 3, 2, 0)]]
+    for tab in asym:
+        n = len(tab)
+        for marker in ("o", "a") if any(e[0] == 11 for e in tab) else ("o", "a", "n", "s"):
+            for mode, keys in ((0, None), (1, None), (2, structural_keys(ctab_dag(tab)))):
+                add(mk_arc_case(cid(), tab, n - 1, mode, keys, rng.choice([None, 1, 2]), marker, cap))
+    for i in range(70 if quick else 1500):
+        n = rng.range(2, 12) if i % 5 else rng.range(12, 24 if quick else 60)
+        base = random_ctab(rng, n, rng.below(5))
+        marker = "oans"[i % 4]
+        tab = adapt_marker(rng, base, marker)
+        dag = ctab_dag(tab)
+        root = n - 1 if rng.chance(5, 6) else rng.below(n)
+        md = md_pick_conv(rng)
+        for mode in (0, 1, 2):
+            keys = None
+            if mode == 2:
+                keys = cmr_classes(tab) if rng.chance(1, 3) else random_keys(rng, dag, rng.below(5))
+            add(mk_arc_case(cid(), tab, root, mode, keys, md, marker, cap, model=(not quick) or i % 2 == 0 or n <= 5))
+    for i in range(30 if quick else 300):
+        n = rng.range(2, 12)
+        dag = random_dag(rng, n, rng.below(5))
+        add(mk_proga_case(cid(), dag, n - 1 if rng.chance(5, 6) else rng.below(n), md_pick_conv(rng), cap, model=(i % 2 == 0)))
+
+
+def md_pick_conv(rng):
+    return rng.choice([None, None, None, 0, 1, 2, 3])
 
 
 # ------------------------------------------------------------ generators
@@ -484,6 +953,8 @@ def gen_cases(rng, tier):
             add(mk_prog_case(cid(), dag, root, rng.choice([None, 3, 7]), cap, shared_only=True))
             add(mk_dag_case(cid(), dag, root, 1, None, rng.choice([None, 3, 7]), cap))
             add(mk_dag_case(cid(), dag, root, 2, structural_keys(dag), rng.choice([None, 3]), cap))
+    # 4. Node::convert driven by the iterator (instrumented converter)
+    gen_conv_cases(rng, tier, cid, add, cap)
     global LAST_SKIPPED
     LAST_SKIPPED = skipped[0]
     return cases
@@ -676,6 +1147,61 @@ def prop_check(c, r):
         return ("malformed", "unparsable harness output")
     dag, root, md = m["dag"], m["root"], m["md"]
     n = len(dag)
+    if c.kind in ("conv", "convp"):
+        nsec = 1 if c.kind == "conv" else 3
+        if r and r[0] == 6:
+            return ("convert", "finalize_types changed the pointer structure (%d vs %d nodes)" % (r[2], r[1]))
+        secs = conv_sections(r, nsec)
+        flags = m.get("flags")
+        if secs is None or flags is None:
+            return ("malformed", "unparsable harness output")
+        fl = list(flags)
+        if c.kind == "conv":
+            return check_convert(m["tab"], root, m["keys"], m["hides"], m["failat"], secs[0],
+                                 fl.pop(0) if secs[0][0] == "ok" else None, "")
+        for (tag, keys), sec in zip((("MaxSharing: ", m["skeys"]), ("InternalSharing: ", list(range(n))),
+                                     ("NoSharing: ", [None] * n)), secs):
+            e = check_convert(m["tab"], root, keys, [0] * n, 0, sec, fl.pop(0) if sec[0] == "ok" else None, tag,
+                              reachable(dag, root))
+            if e:
+                return e
+        return None
+    if c.kind == "arc":
+        if r == [9]:
+            return ("panic", "building the DAG panicked")
+        keys = m["keys"]
+        pos = 0
+        for tag in ("by &Node: ", "by Arc<Node>: "):
+            p = parse_sections(r[pos:], WIDTHS)
+            if p is None:
+                return ("malformed", "unparsable harness output")
+            pos += p[1]
+            e = check_keyed(dag, root, keys, md, p[0], tag, congruent(dag, root, keys))
+            if e:
+                return ("arc-" + e[0] if tag.startswith("by Arc") else e[0], e[1])
+        if pos != len(r):
+            return ("malformed", "unparsable harness output")
+        return None
+    if c.kind == "proga":
+        if r == [9]:
+            return ("panic", "building the program panicked")
+        if r and r[0] == 6:
+            return ("convert", "finalize_types changed the pointer structure (%d vs %d nodes)" % (r[2], r[1]))
+        pos = 0
+        ptr = list(range(n))
+        for tag, keys in (("Arc<CommitNode> MaxSharing: ", m["skeys"]), ("Arc<CommitNode> InternalSharing: ", ptr),
+                          ("Arc<CommitNode> NoSharing: ", [None] * n), ("&ConstructNode InternalSharing: ", ptr),
+                          ("Arc<ConstructNode> InternalSharing: ", ptr)):
+            p = parse_sections(r[pos:], WIDTHS)
+            if p is None:
+                return ("malformed", "unparsable harness output")
+            pos += p[1]
+            e = check_keyed(dag, root, keys, md, p[0], tag, True)
+            if e:
+                return ("arc-" + e[0], e[1])
+        if pos != len(r):
+            return ("malformed", "unparsable harness output")
+        return None
     if c.kind == "dag":
         p = parse_sections(r, WIDTHS)
         if p is None or p[1] != len(r):
@@ -722,6 +1248,16 @@ def run(rep, tier, rng):
         "HashMap is modelled as an association list (only get / insert-if-vacant are used)",
         "is_shared_as: the model collects both iterators before zipping (equal to the alternating zip because neither panics)",
         "Rust harness crate /verif/harness_dag (table-backed DagLike, KeyedSharing tracker, real CommitNode programs for MaxSharing)",
+        "model Dag/Convert.v written by hand from src/node/mod.rs Node::convert, src/node/convert.rs and src/node/inner.rs: the converter "
+        "is an abstract state-passing record; a converted node's pointer identity is its position in `converted`; hooks that receive "
+        "`&Arc<Node<M>>` get the vector and positions; CMRs / entropy / jets / words are numbers (only copied)",
+        "Node::convert is exercised on DAGs of harness-defined markers built with Node::from_parts (no typing; sharing id = harness key "
+        "through Marker::compute_sharing_id, so MaxSharing<Src> is the library's tracker) and on real CommitNode programs; CMR columns are "
+        "compared as 'smallest source position with the same CMR' against a python structural-hash reference (gap: a SHA-256 collision)",
+        "pointer sharing of the result is observed with Arc::ptr_eq on every child pointer handed to a hook or found in the result",
+        "kinds arc / proga: the same DAG is iterated through `impl DagLike for &Node` and `impl DagLike for Arc<Node>` (by value) for four "
+        "harness markers whose disconnect data are Option<Arc<Node>>, Arc<Node>, NoDisconnect and Arc<str> (every Disconnectable impl: "
+        "disconnect_dag_ref / disconnect_dag_arc); both must equal the model's iteration of the table (children in the order left, right)",
     ]
     binary, out = vplib.harness_build("debug", crate=CRATE)
     if binary is None:
@@ -733,6 +1269,11 @@ def run(rep, tier, rng):
     nmodel = len([c for c in cases if c.expr is not None])
     impl, model = vplib.eval_cases(rep, binary, COMMAND, cases, IMPORTS, tag="c18",
                                    batch=max(250, min(1000, (nmodel + 15) // 16)), harness_timeout=150)
+    for c in cases:     # convert cases: split the pointer-equality flags off the harness output
+        if c.kind in ("conv", "convp") and isinstance(impl.get(c.cid), list):
+            sp = split_conv(impl[c.cid], 1 if c.kind == "conv" else 3)
+            if sp is not None:
+                impl[c.cid], c.meta["flags"] = sp
     for c in cases:     # digest cases: the model printed (length, hash) of its flat result
         if c.meta.get("digest") and c.cid in model and isinstance(impl.get(c.cid), list):
             if digest(impl[c.cid]) == model[c.cid]:
@@ -749,12 +1290,19 @@ def run(rep, tier, rng):
     rep.coverage["rule"] = ("all node tables with <= %d nodes (every arity, every choice of smaller child positions, root = last "
                             "node) x {NoSharing, InternalSharing, every keying incl. missing keys for <= 4 nodes, random keyings "
                             "beyond}; random tables up to %d nodes (diamonds, repeated children, child-and-grandchild, unary "
-                            "chains, tree-like) x 5 trackers; real CommitNode programs through MaxSharing.  Distinct non-trivial = "
+                            "chains, tree-like) x 5 trackers; real CommitNode programs through MaxSharing; Node::convert with an instrumented Converter "
+                            "(hook log, child pointers, Arc::ptr_eq) on random tables over all 16 combinators x {NoSharing, InternalSharing, "
+                            "MaxSharing with structural / CMR / arbitrary ids} x hide decisions x an error injected at every hook position, and "
+                            "on CommitNode programs; the five iterators by `&Node` and by `Arc<Node>` by value over tables with every combinator incl. "
+                            "disconnect with / without right child for every Disconnectable impl, and over Arc<CommitNode> / ConstructNode programs.  "
+                            "Distinct non-trivial = "
                             "distinct (table, root, tracker, max_depth) with at least one node reachable by two paths"
                             % (5 if tier == "quick" else 6, 60 if tier == "quick" else 400))
     rep.coverage["samples"] = [{"kind": c.kind, "args": c.line, "impl": impl.get(c.cid)}
                                for c in cases[::max(1, len(cases) // 5)][:6]]
     rep.assumptions += [
+        "convert theorems: swf (children at smaller positions), root inside the table, fuel >= 2 * tree size + 1; the tree-level structure "
+        "theorem assumes sound sharing ids (same id => same un-shared tree; shown for pointer identity and no sharing)",
         "all theorems assume wfc children (children at smaller table positions = acyclic graph)",
         "root-last / no-orphans / pre-order = post-order nodes / is_shared_as_iff assume key_acyclic (no node carries the "
         "sharing id of its own proper descendant: true of NoSharing, InternalSharing and any hash of the structure below a "
@@ -776,6 +1324,10 @@ def replay(obj):
     case = case_from_line(c["id"], c["kind"], c["harness_args"])
     rep = vplib.Report(PROP, "quick", 0)
     impl, model = vplib.eval_cases(rep, binary, COMMAND, [case], IMPORTS, tag="replay")
+    if case.kind in ("conv", "convp") and isinstance(impl.get(case.cid), list):
+        sp = split_conv(impl[case.cid], 1 if case.kind == "conv" else 3)
+        if sp is not None:
+            impl[case.cid], case.meta["flags"] = sp
     print("implementation:", impl.get(case.cid))
     print("model         :", model.get(case.cid))
     print("property      :", prop_check(case, impl.get(case.cid)))
